@@ -12,12 +12,12 @@
         behind `pk.NBT` / `NBTField` (C02/C03) and the registries over it are the OWNING properties' models, run and
         printed with the owning drivers' functions.
     c08.raw <decoder> <params> <hex> => ok used=<k> | err used=<k> | panic | hang
-        `rawDecoders`: ORACLE-ONLY lines (props/C08.json, `oracle_only_decoders`): `chat.nbt` (no Lean model of the NBT
-        form of chat.Message yet) and the part of the `chunk` stream the harness does not send through the model
-        (`section` / `chunk` inputs over 1200 bytes are sampled with probability inversely proportional to the model's
-        cost, which is quadratic in the input length: harness/c08.go `c08SampleOp`).
+        `rawDecoders`: ORACLE-ONLY lines (props/C08.json, `oracle_only_decoders`): the part of the `palette` / `section` / `chunk`
+        stream the harness does not send through the model (inputs over 1200 bytes are sampled with probability inversely
+        proportional to the model's cost, which is quadratic in the input length: harness/c08.go `c08SampleOp`).
         Only the oracle "never panic / never hang" is applied; the model column echoes the observation (it is NOT
-        evidence of correspondence).
+        evidence of correspondence).  Every decoder of the list has a model; `chat.nbt` and `chat.type` use C17 stage 2's
+        (`Model/ChatNBT.lean`: `readFrom`, and `typeDec` over it), printed as Driver.C17 prints them.
     c08.spin <hex> => ok … | err … | hang        the known finding `C08.ary-zero-width-spin`
   The decoders owned by other properties keep their own operations and handlers (`frame.unpack` → Driver.C07,
   `cmd.exec` → Driver.CMD, `dynbt.dec` → Driver.DYNBT); `Main` dispatches them.
@@ -492,6 +492,27 @@ def runChatJSON (_ : String) (input : Bytes) (obs : String) : Option String :=
     | (.err, s) => s!"err used={used input s} tree={treeTok}"
     | (.panic, _) => "panic"
 
+/-- `(*chat.Message).ReadFrom` into a fresh message (C17 stage 2: `ChatNBT.readFrom`); a decoded value whose hover
+contents cannot be printed as a JSON tree (`ofGo = none`) is echoed, as Driver.C17 does -/
+def runChatNBT (_ : String) (input : Bytes) (obs : String) : Option String :=
+  some (match ChatNBT.readFrom (Stream.ofBytes input) with
+    | (.ok (v, n), s) =>
+      (match ChatNBT.ofGo v with
+        | some m => s!"ok n={n} used={used input s} v={C17.showMsg m}"
+        | none => if (obs.splitOn " ").headD "" == "ok" then obs else s!"ok n={n} used={used input s} v=?")
+    | (.err, s) => s!"err used={used input s}"
+    | (.panic, _) => "panic")
+
+/-- `(*chat.Type).ReadFrom` into a fresh `Type`: `Chat.typeDec` over the exact codec of the two names -/
+def runChatType (_ : String) (input : Bytes) (obs : String) : Option String :=
+  some (match Chat.typeDec C17.goCodec ⟨0, ChatNBT.messageTy.zero, none⟩ (Stream.ofBytes input) with
+    | (.ok (r, n), s) =>
+      (match ChatNBT.ofGo r.sender, (match r.target with | some x => (ChatNBT.ofGo x).map some | none => some none) with
+        | some s', some t' => s!"ok n={n} used={used input s} v={C17.showType ⟨r.id, s', t'⟩}"
+        | _, _ => if (obs.splitOn " ").headD "" == "ok" then obs else s!"ok n={n} used={used input s} v=?")
+    | (.err, s) => s!"err used={used input s}"
+    | (.panic, _) => "panic")
+
 /-- nbt params: `<key>:<allow unknown fields>:<type description>`: `pk.NBTField{V: &v, AllowUnknownFields: a}.ReadFrom` -/
 def runNbt (params : String) (input : Bytes) (_ : String) : Option String :=
   match params.splitOn ":" with
@@ -585,6 +606,13 @@ def wChunk (secs : Nat) : W Unit := do
           wRepeat wBlockEntity k
           wLight) (bs.drop n)
 
+/-- id, sender component, Boolean, target component iff the Boolean is set -/
+def wChatType : W Unit := do
+  let _ ← wVarInt
+  wNbt
+  let b ← wByte
+  if b == 0 then pure () else wNbt
+
 def shapeRegistryTyped (_ : String) (input : Bytes) : WRes Unit :=
   (do
     let n ← wCount wVarInt "registry length"
@@ -615,6 +643,8 @@ def decoders : List Dec := [
   { name := "chunk", run := runChunk, shape := fun p bs => wChunk (natArg ((p.splitOn "/").headD "")) bs },
   { name := "blockentity", run := runBlockEntity, shape := fun _ bs => wBlockEntity bs },
   { name := "chat.json", run := runChatJSON, shape := fun _ bs => wTy .string bs },
+  { name := "chat.nbt", run := runChatNBT, shape := fun _ bs => wNbt bs },
+  { name := "chat.type", run := runChatType, shape := fun _ bs => wChatType bs },
   { name := "nbt", run := runNbt, shape := fun _ bs => wNbt bs },
   { name := "registry", run := runRegistryTyped, shape := shapeRegistryTyped } ]
 
@@ -649,9 +679,9 @@ structure RawDec where
   known : String → Bytes → List String := fun _ _ => []
 
 def rawDecoders : List RawDec := [
+  { name := "palette" },
   { name := "section" },    -- the long inputs the harness does not send through the model
-  { name := "chunk" },
-  { name := "chat.nbt" } ]
+  { name := "chunk" } ]
 
 def raw (name params hex obs : String) : Verdict :=
   match rawDecoders.find? (fun d => d.name == name) with
